@@ -51,13 +51,29 @@ def model_query(s, pop, x, inv, owner):
         else:
             p, vs = y["parts"][0]
             ty = ",".join(str(ents[e]) for e in G.supers(s, p))
-            attrs = [(o, an, k, v) for (o, an, k, t), v in zip(G.all_attrs(s, p), vs)]
+            rd = G.redeclared(s, p)
+            attrs = [(o, an, k, (("null",) if an in rd else v)) for (o, an, k, t), v in zip(G.all_attrs(s, p), vs)]
         toks = []
         for (o, an, k, v) in attrs:
             refs = [v[1]] if v[0] == "ref" else (list(v[1]) if v[0] == "agg" else [])
             toks.append(f"{ents[o]}.{names[an]}.{1 if k in ('listref', 'setref') else 0}." + ("+".join(map(str, refs)) if refs else "-"))
         parts.append(f"{y['id']} {ty} " + " ".join(toks))
     return head + " ; " + " ; ".join(parts)
+
+
+def deep_entities(s):
+    """entities that inherit an inverse attribute from the LAST supertype in breadth-first order when they have more than
+    one (transitive) supertype - a grand-supertype or a second supertype (class inverse-inherited-beyond-first-supertype)"""
+    out = set()
+    for e in s["entities"]:
+        sp = G.supers(s, e["name"])[1:]
+        if len(sp) >= 2 and G.ent(s, sp[-1]).get("inverses"):
+            out.add(e["name"])
+    return out
+
+
+def redecl_entities(s):
+    return {e["name"] for e in s["entities"] if G.redeclared(s, e["name"])}
 
 
 def parse_inv(lines):
@@ -89,6 +105,17 @@ def check_pop(exe, env, model_exe, workdir, tag, s, pop, text, off, orders, budg
         if rc == 98 and "judy.c" in err and "misaligned" in err:
             problems.append(("skipped", "UBSan abort inside the bundled judy.c (misaligned load; not C11's statement)", o))
             continue
+        if (not ended or rc != 0) and C10.is_fatal(rc):
+            ents_here = {p for x in pop for (p, _) in x["parts"]}
+            if "not found in iAMap" in err and ents_here & deep_entities(s):
+                problems.append(("class:inverse-inherited-beyond-first-supertype",
+                                 f"loading {o}: abort() `{[l for l in err.splitlines() if 'iAMap' in l][0][:160]}`: the instance's entity inherits the inverse "
+                                 f"attribute from a grand-supertype or a second supertype and InitIAttrs left no slot for it", o))
+                break
+            if ents_here & redecl_entities(s) and rc in (-11, 139, 99):
+                problems.append(("class:redeclared-inverted-attr",
+                                 f"loading {o} died (rc={rc}) in a population with an instance whose entity redeclares the inverted attribute", o))
+                break
         if not ended or rc != 0:
             last = [l for l in err.strip().splitlines() if "runtime error" in l or "ERROR: AddressSanitizer" in l or "Assertion" in l]
             problems.append(("property", f"loading {o} and reading the inverse attributes ended rc={rc}: "
@@ -104,11 +131,15 @@ def check_pop(exe, env, model_exe, workdir, tag, s, pop, text, off, orders, budg
             x = byid[i]
             truth = G.inverse_truth(s, pop, x)
             truth_nc = G.inverse_truth(s, pop, x, skip_complex=True)
+            truth_nr = G.inverse_truth(s, pop, x, skip_redecl=True)
             for (n, owner), want in truth.items():
                 inv = next(v for v in G.ent(s, owner)["inverses"] if v[0] == n)
                 g = got.get((i, n, owner))
                 if g is None:
-                    problems.append(("property", f"instance #{i} has no slot for inverse attribute {n} of {owner}", o))
+                    kind = "property"
+                    if len(x["parts"]) == 1 and x["parts"][0][0] in deep_entities(s):
+                        kind = "class:inverse-inherited-beyond-first-supertype"
+                    problems.append((kind, f"instance #{i} ({x['parts'][0][0]}) has no slot for inverse attribute {n} inherited from {owner}", o))
                     continue
                 flags, ids = g
                 if inv[1]:
@@ -116,6 +147,9 @@ def check_pop(exe, env, model_exe, workdir, tag, s, pop, text, off, orders, budg
                         # exactly the complex referrers are missing: the known class
                         problems.append(("class:complex-referrer", f"after loadInstance history {o}: #{i}.{n} (SET OF {inv[2]} FOR {inv[3]}) holds {ids}, "
                                          f"the real referrers are {want} (the missing ones are complex instances)", o))
+                    elif want != truth_nr[(n, owner)] and ids == truth_nr[(n, owner)]:
+                        problems.append(("class:redeclared-inverted-attr", f"after loadInstance history {o}: #{i}.{n} (SET OF {inv[2]} FOR {inv[3]}) holds {ids}, "
+                                         f"the real referrers are {want} (the missing ones mention #{i} through the attribute their entity redeclares)", o))
                     elif sorted(ids) != want or len(set(ids)) != len(ids):
                         problems.append(("property", f"after loadInstance history {o}: #{i}.{n} (SET OF {inv[2]} FOR {inv[3]}) holds {ids}, "
                                          f"the real referrers are {want}", o))
@@ -179,9 +213,12 @@ def run(ctx):
             ctx.count(1, key="corpus:" + f)
             if rc != 0 or not ended or sorted(invl) != sorted(r["expect"]):
                 ctx.violation(r.get("key", "corpus:" + f[:-5]), f"history {o}: inverse attributes {invl} (rc={rc}), the real referrers are {r['expect']}", r)
-    nschemas, npops, nmax = (4, 30, 14) if quick else (40, 100, 14)
+    nschemas, npops, nmax = (6, 30, 14) if quick else (40, 100, 14)
     # every 8th schema (the last one in quick) lets referrers be complex instances: the known `complex-referrer` class
-    schemas = [G.schema_c11(ctx.rng, i, ninv=(i % 3) + 1, complex_ref=(i % 8 == 3)) for i in range(nschemas)]
+    # schema variants by index mod 8: 1,4,7 subtypes of the inverted entity with several supertypes (rel first / second);
+    # 2,4 targets inheriting inverses from a grand-/second supertype; 3 complex referrers; 5 a referrer redeclaring the inverted attribute
+    schemas = [G.schema_c11(ctx.rng, i, ninv=(i % 3) + 1, complex_ref=(i % 8 == 3), mi=(i % 8 in (1, 4, 7)),
+                            deep=(i % 8 in (2, 4)), redecl=(i % 8 == 5)) for i in range(nschemas)]
     t0 = time.time()
     with cf.ThreadPoolExecutor(max_workers=8) as ex:
         exes = list(ex.map(lambda s: C10.build_schema(b, s, ctx.work), schemas))
